@@ -188,12 +188,18 @@ fn check_stream(name: &str) -> Option<String> {
     let m = |d: &str| (None, d.to_string());
     let t = |t: &str, d: &str| (Some(t.to_string()), d.to_string());
     match name {
-        "order" | "content" | "burst" | "bigburst" | "hugeburst" => {
+        "order" | "content" | "burst" | "bigburst" | "hugeburst" | "sizes" | "oversize" => {
             let (evs, gap): (Vec<(Option<String>, String)>, u64) = match name {
                 "order" => ((0..30).map(|i| if i % 3 == 0 { t("tick", &format!("n{i}")) } else { m(&format!("n{i}")) }).collect(), 3),
                 // content that must not end the stream or disturb its neighbours: empty data, bare line ends, field look-alikes
                 "content" => (vec![m("first"), m(""), m("\n"), m("\r"), t("x", ""), m("a\rid: 7"), m("a\r\nevent: y\n"), m(":comment"), m("data: nested"), m("retry: 5"), m("last")], 10),
+                // one byte more than the writer reads at once
+                "oversize" => (vec![m("before"), m(&"s".repeat(65529 - 7)), m("after")], 4),
                 "burst" => ((0..40).map(|i| m(&format!("b{i}"))).collect(), 0),
+                // one event per chunk (the pause lets the writer drain), the block `data: ..\n` exactly as long as each value at
+                // which the chunk-size line gains a hex digit, one below and one above, and the largest the writer reads at once:
+                // a size line that reads as 0 would end the stream because of an event's length
+                "sizes" => ([15usize, 16, 17, 255, 256, 257, 4095, 4096, 4097, 65527, 65528].iter().flat_map(|n| vec![m(&"s".repeat(n - 7)), m("after")]).collect(), 4),
                 // bursts that do not fit one read window of the body writer (65528 bytes)
                 "bigburst" => ((0..40).map(|i| m(&format!("{i}:{}", "x".repeat(5000)))).collect(), 0),
                 _ => ((0..3).map(|i| t("big", &format!("{i}:{}", "y".repeat(30000)))).collect(), 0),
@@ -327,7 +333,7 @@ fn main() {
     // a sender that overruns the queue of 50 without anybody reading is disconnected from then on
     { n += 1; let (mut s, _resp) = Response::event_stream(); for i in 0..60 { s.send(Event::Message(format!("o{i}"))); }
       if s.is_connected() { if found.len() < 6 { found.push("api overrun expected=disconnected after 60 unread events actual=connected".to_string()) } } }
-    for sc in ["order", "content", "burst", "bigburst", "hugeburst", "two-senders", "overrun"] { n += 1; if let Some(m) = check_stream(sc) { if found.len() < 6 { found.push(m) } } }
+    for sc in ["order", "content", "sizes", "oversize", "burst", "bigburst", "hugeburst", "two-senders", "overrun"] { n += 1; if let Some(m) = check_stream(sc) { if found.len() < 6 { found.push(m) } } }
     println!("EVALUATED {n}");
     for f in &found { println!("WITNESS {f}"); }
     std::process::exit(if found.is_empty() { 0 } else { 1 });
